@@ -1,6 +1,8 @@
 package mvt
 
 import (
+	"sort"
+
 	"github.com/paulmach/orb/geojson"
 	"github.com/paulmach/orb/maptile"
 	"github.com/paulmach/orb/project"
@@ -52,10 +54,17 @@ func (l *Layer) ProjectToWGS84(tile maptile.Tile) {
 type Layers []*Layer
 
 // NewLayers creates a set of layers given a set of feature collections.
+// The layers are ordered by name so that marshalling the result is stable.
 func NewLayers(layers map[string]*geojson.FeatureCollection) Layers {
+	names := make([]string, 0, len(layers))
+	for name := range layers {
+		names = append(names, name)
+	}
+	sort.Strings(names)
+
 	result := make(Layers, 0, len(layers))
-	for name, fc := range layers {
-		result = append(result, NewLayer(name, fc))
+	for _, name := range names {
+		result = append(result, NewLayer(name, layers[name]))
 	}
 
 	return result
